@@ -17,6 +17,10 @@ pub fn repo_path(o: &Opts) -> String {
 /// Oracle O1 against the real-ssdeep vectors shipped in the repository.
 /// A failure here means the *oracle* cannot be trusted => inconclusive.
 pub fn selfcheck(o: &Opts) -> Result<u64, String> {
+    if crate::work::bytes::tiny() {
+        // interpreter / sanitizer runs decide memory safety only; the calibration runs in the native checks
+        return Ok(0);
+    }
     let root = format!("{}/ffuzzy", repo_path(o));
     let idx = std::fs::read_to_string(format!("{}/data/testsuite/generate-small.ssdeep.txt", root))
         .map_err(|e| format!("cannot read vector index: {}", e))?;
